@@ -50,34 +50,50 @@ fn lcm(expr1: i64, expr2: i64) -> i64 {
     (expr1 / gcd(expr1, expr2) * expr2).abs()
 }
 
+const OVERFLOW: &str = "Integer overflow";
+const DIVISION: &str = "Division by zero or integer overflow";
+const INVALID_SHIFT: &str = "Invalid shift count";
+
 pub fn eval(expr: Node) -> Result<i64, Box<dyn error::Error>> {
     use self::Node::*;
     match expr {
         Number(i) => Ok(i),
         And(expr1, expr2) => Ok(eval(*expr1)? & eval(*expr2)?),
         Or(expr1, expr2) => Ok(eval(*expr1)? | eval(*expr2)?),
-        LeftShift(expr1, expr2) => Ok(eval(*expr1)? << eval(*expr2)?),
-        RightShift(expr1, expr2) => Ok(eval(*expr1)? >> eval(*expr2)?),
-        Add(expr1, expr2) => Ok(eval(*expr1)? + eval(*expr2)?),
-        Subtract(expr1, expr2) => Ok(eval(*expr1)? - eval(*expr2)?),
-        Multiply(expr1, expr2) => Ok(eval(*expr1)? * eval(*expr2)?),
-        Divide(expr1, expr2) => Ok(eval(*expr1)? / eval(*expr2)?),
-        Modulo(expr1, expr2) => Ok(eval(*expr1)? % eval(*expr2)?),
-        Negative(expr1) => Ok(-(eval(*expr1)?)),
-        Pow(expr1, expr2) => Ok(eval(*expr1)?.pow(eval(*expr2)? as u32)),
+        LeftShift(expr1, expr2) => {
+            let value = eval(*expr1)?;
+            let shift = u32::try_from(eval(*expr2)?).map_err(|_| INVALID_SHIFT)?;
+            Ok(value.checked_shl(shift).ok_or(INVALID_SHIFT)?)
+        }
+        RightShift(expr1, expr2) => {
+            let value = eval(*expr1)?;
+            let shift = u32::try_from(eval(*expr2)?).map_err(|_| INVALID_SHIFT)?;
+            Ok(value.checked_shr(shift).ok_or(INVALID_SHIFT)?)
+        }
+        Add(expr1, expr2) => Ok(eval(*expr1)?.checked_add(eval(*expr2)?).ok_or(OVERFLOW)?),
+        Subtract(expr1, expr2) => Ok(eval(*expr1)?.checked_sub(eval(*expr2)?).ok_or(OVERFLOW)?),
+        Multiply(expr1, expr2) => Ok(eval(*expr1)?.checked_mul(eval(*expr2)?).ok_or(OVERFLOW)?),
+        Divide(expr1, expr2) => Ok(eval(*expr1)?.checked_div(eval(*expr2)?).ok_or(DIVISION)?),
+        Modulo(expr1, expr2) => Ok(eval(*expr1)?.checked_rem(eval(*expr2)?).ok_or(DIVISION)?),
+        Negative(expr1) => Ok(eval(*expr1)?.checked_neg().ok_or(OVERFLOW)?),
+        Pow(expr1, expr2) => {
+            let base = eval(*expr1)?;
+            let exponent = u32::try_from(eval(*expr2)?).map_err(|_| "Invalid exponent")?;
+            Ok(base.checked_pow(exponent).ok_or(OVERFLOW)?)
+        }
         Factorial(sub_expr) => {
             let sub_result = eval(*sub_expr)?;
             if sub_result >= 0 {
-                let mut factorial_result = 1;
-                for i in 2..=(sub_result as usize) {
-                    factorial_result *= i as i64;
+                let mut factorial_result: i64 = 1;
+                for i in 2..=sub_result {
+                    factorial_result = factorial_result.checked_mul(i).ok_or(OVERFLOW)?;
                 }
                 Ok(factorial_result)
             } else {
                 Ok(0)
             }
         }
-        Abs(sub_expr) => Ok(eval(*sub_expr)?.abs()),
+        Abs(sub_expr) => Ok(eval(*sub_expr)?.checked_abs().ok_or(OVERFLOW)?),
         Sqrt(sub_expr) => {
             let before_sqr = eval(*sub_expr)? as f64;
             Ok(before_sqr.sqrt() as i64)
@@ -101,8 +117,10 @@ pub fn eval(expr: Node) -> Result<i64, Box<dyn error::Error>> {
             let result = eval(*sub_expr)?;
             if result < 0 {
                 Ok(0)
-            } else {
+            } else if result < 63 {
                 Ok(1 << result)
+            } else {
+                Err(OVERFLOW.into())
             }
         }
         Log(expr1, expr2) => {
